@@ -18,8 +18,8 @@ META = dict(
 
 class C06(AttBase):
     tag = "C06"
-    quick_pool = ["v_sizes23", "v_sizes65", "v_perms", "v_fixed", "v_handlers", "v_handler_noread", "v_enc_kinds", "v_wq142"]
-    quick_random = 2
+    quick_pool = ["v_sizes23", "v_sizes65", "v_perms", "v_fixed", "v_handlers", "v_handler_noread", "v_enc_kinds", "v_long"]
+    quick_random = 1
     thorough_random = 40
     trusted_base = ["models coq/AttDb/AttDbModel.v, coq/AttSrv/AttSrvModel.v (hand written transcription, tied by this run)",
                     "reference semantics coq/AttSrv/AttSrvSpecVal.v (aread_value, awrite, spec_readable, spec_writable, spec_properties)",
@@ -44,6 +44,8 @@ class C06(AttBase):
         for cfg, vi in zip(cfgs, VC.vinfos(self.component, cfgs)):
             for ops in VC.gen_rw_boundaries(rng, vi):
                 cases.append(self.case("bounds", cfg, ops))
+            for ops in VC.gen_wide_offsets(rng, vi):
+                cases.append(self.case("wide", cfg, ops))
             for ops in VC.gen_k1(rng, vi):
                 cases.append(self.case("noread", cfg, ops))
             for ops in VC.gen_gap_handles(rng, vi):
